@@ -114,6 +114,31 @@ def lexDouble (s : List Char) : Option (List Char × E) :=
       | some r => some (r, .litInf)
       | none => none
 
+/-- `str::ends_with(|ch: char| ch.is_ascii_alphabetic())` -/
+def endsWithAlpha (s : List Char) : Bool :=
+  match s.getLast? with
+  | some c => isAlpha c
+  | none => false
+
+/-- `str::starts_with(|ch: char| ch.is_ascii_alphabetic())` -/
+def startsWithAlpha (s : List Char) : Bool :=
+  match s with
+  | c :: _ => isAlpha c
+  | [] => false
+
+/-- `parse_const`: `double`, with the guard of the repair "a word that is only the beginning of a
+    longer name is that name, not a number": when the text consumed by `double`
+    (`expr[..expr.len() - rest.len()]`) ends with an ASCII letter — this happens exactly for the
+    words `inf` / `nan`, a numeric literal ends with a digit or '.' — and the remaining input
+    starts with an ASCII letter, `parse_const` fails, so that `parse_term` goes on to
+    `parse_func` / `parse_var`, which lex the whole name with `alpha1`. -/
+def parseConst (s : List Char) : Option (List Char × E) :=
+  match lexDouble s with
+  | some (rest, t) =>
+    if endsWithAlpha (s.take (s.length - rest.length)) && startsWithAlpha rest then none
+    else some (rest, t)
+  | none => none
+
 /-- `nom::character::complete::i32`: optional sign, at least one digit, checked arithmetic -/
 def lexI32 (s : List Char) : Option (List Char × Int) :=
   let (neg, s1) := match s with
@@ -216,7 +241,7 @@ def parseTerm : Nat → Ctx → List Char → Bool → R E
         | .ok r t => .ok r t
         | .oof => .oof
         | .fail =>
-          match lexDouble s1 with
+          match parseConst s1 with
           | some (r, t) => .ok r t
           | none =>
             match parseFunc fuel ctx s1 with
